@@ -24,9 +24,9 @@ T2 = {
     "index|%snext_delimiter|str::index|0" % DE:
         (r"RangeFrom\{start: .*len_utf8", "guarded by input.starts_with(current): slices off exactly that char", [r"^true: .*starts_with\(self\.input"]),
     "slice-api|%sparse_string|str::split_at|0" % DE:
-        (r"find\(self\.input", "index is the result of self.input.find('\"') on the same string: a char boundary in range"),
+        (r"^str::split_at\((?P<s>.+?), \((?:core::str::<impl str>::find\((?P=s), 34\) as Some\)\.0\)$|<std::result::Result<T, E> as std::ops::Try>::branch\(std::option::Option::<T>::ok_or(?:_else)?\(core::str::<impl str>::find\((?P=s), 34\), )", "the split point is the *Some* result of find('\"') on the same string: a char boundary in range"),
     "index|%sparse_string|str::index|0" % DE:
-        (r"split_at.*RangeFrom\{start: 1\}", "`rest` starts at the '\"' found by find; '\"' is one byte"),
+        (r"^str::index\(core::str::<impl str>::split_at\((?P<s>.+?), \((?:core::str::<impl str>::find\((?P=s), 34\) as Some\)\.0\)\.1, .*RangeFrom\{start: 1\}|<std::result::Result<T, E> as std::ops::Try>::branch\(std::option::Option::<T>::ok_or(?:_else)?\(core::str::<impl str>::find\((?P=s), 34\), )", "`rest` starts at the '\"' that find located (its Some result, not a fallback length); '\"' is one byte, so rest[1..] exists"),
     "overflow|%sparse_unsigned|Sub|0" % DE:
         (r"^Sub\(\((?P<ch>.*) as u8\), 48\)$", "ch matched '0'..='9' so ch as u8 >= b'0'", [r"^true: Le\(48, {ch}\)$", r"^true: Le\({ch}, 57\)$"]),
     "overflow|%sparse_unsigned::{closure#0}|Sub|0" % DE:
